@@ -1,15 +1,32 @@
-(* C01vm — denotational generator semantics of fragment F: a total function.
-   F has no recursion and no function definitions, so every generator is finite and an eager
-   list semantics is adequate (laziness only matters for infinite generators / early exit, which
-   are outside F).  A result is the list of outputs in order followed by how the enumeration
-   ended: normally, with an error (errors stop everything up to the nearest try), or with a break. *)
+(* C01vm — denotational generator semantics: a total function of a fuel, the query, the environment and the input.
+   Generators of terminating programs are finite, so an eager list semantics is adequate (laziness only matters for
+   infinite generators / early exit).  A result is the list of outputs in order followed by how the enumeration
+   ended: normally, with an error (errors stop everything up to the nearest try), with a break, or because the
+   fuel ran out (every call of a user-defined function costs one unit; XFuel is caught by nothing, the theorem says
+   nothing about what the machine does after that point). *)
 From Coq Require Import List NArith ZArith Bool.
 From Verif Require Import c01vm2.Syntax c01vm2.Code.
 Import ListNotations.
 
-Inductive exn := XErr (e : err0) | XBrk (l : lname).
+Inductive exn := XErr (e : err0) | XBrk (l : lname) | XFuel.
 Definition result := (list jv * option exn)%type.
-Definition venv := list (vname * jv).
+(* the environment, innermost binding first: $x is bound to a value, f to the body of a definition whose
+   environment is the part of the list that starts at its own entry (so f can call itself and everything
+   visible at its definition, and nothing defined later) *)
+Inductive binding := BV (w : jv) | BF (body : query).
+Definition venv := list (N * binding).
+Fixpoint lookup_v (x : vname) (rho : venv) : option jv :=
+  match rho with
+  | [] => None
+  | (y, BV w) :: r => if N.eqb x y then Some w else lookup_v x r
+  | _ :: r => lookup_v x r
+  end.
+Fixpoint lookup_f (f : fname) (rho : venv) : option (query * venv) :=
+  match rho with
+  | [] => None
+  | (g, BF b) :: r => if N.eqb f g then Some (b, rho) else lookup_f f r
+  | _ :: r => lookup_f f r
+  end.
 
 (* sequencing: r, and if r ended normally then k () *)
 Definition seq (r : result) (k : result) : result :=
@@ -77,63 +94,85 @@ Fixpoint foreach_fold (upd : jv -> jv -> result) (ext : jv -> jv -> result) (ws 
       end
   end.
 
-Fixpoint den (q : query) (rho : venv) (v : jv) : result :=
+(* [call] is the meaning of the body of a called function (the semantics with one unit of fuel less) *)
+Fixpoint den1 (call : query -> venv -> jv -> result) (q : query) (rho : venv) (v : jv) {struct q} : result :=
+  let go := den1 call in
   match q with
   | QId => ([v], None)
   | QConst c => ([c], None)
-  | QPipe a b => bind (den a rho v) (den b rho)
-  | QComma a b => seq (den a rho v) (den b rho v)
+  | QPipe a b => bind (go a rho v) (go b rho)
+  | QComma a b => seq (go a rho v) (go b rho v)
   | QEmpty => ([], None)
-  | QIter t => bind (den t rho v) iter_res
-  | QIndex t k => bind (den t rho v) (fun w => of_sum (n_index nt w k))
-  | QIf c a b => bind (den c rho v) (fun w => if truthy w then den a rho v else den b rho v)
+  | QIter t => bind (go t rho v) iter_res
+  | QIndex t k => bind (go t rho v) (fun w => of_sum (n_index nt w k))
+  | QIf c a b => bind (go c rho v) (fun w => if truthy w then go a rho v else go b rho v)
   | QAlt a b =>
-      let '(ws, x) := den a rho v in
+      let '(ws, x) := go a rho v in
       let ts := filter truthy ws in
       match x with
       | Some e => (ts, Some e)                 (* gojq: an error of the left operand propagates *)
-      | None => match ts with [] => den b rho v | _ => (ts, None) end
+      | None => match ts with [] => go b rho v | _ => (ts, None) end
       end
   | QTry a h =>
-      match den a rho v with
+      match go a rho v with
       | (ws, Some (XErr e)) =>
           match h with
-          | Some h => seq (ws, None) (den h rho (errval e))
+          | Some h => seq (ws, None) (go h rho (errval e))
           | None => (ws, None)
           end
       | r => r                                 (* a break is not caught by try *)
       end
   | QArray q =>
-      match den q rho v with
+      match go q rho v with
       | (ws, None) => ([VArr ws], None)
       | (_, Some x) => ([], Some x)
       end
   | QReduce src x init upd =>
-      bind (den init rho v) (fun s0 =>
-        let '(ws, sx) := den src rho v in
-        match reduce_fold (fun w acc => den upd ((x, w) :: rho) acc) ws s0 with
+      bind (go init rho v) (fun s0 =>
+        let '(ws, sx) := go src rho v in
+        match reduce_fold (fun w acc => go upd ((x, BV w) :: rho) acc) ws s0 with
         | inr e => ([], Some e)
         | inl acc => match sx with Some e => ([], Some e) | None => ([acc], None) end
         end)
   | QForeach src x init upd ext =>
-      bind (den init rho v) (fun s0 =>
-        let '(ws, sx) := den src rho v in
-        seq (foreach_fold (fun w acc => den upd ((x, w) :: rho) acc)
-               (fun w u => match ext with Some e => den e ((x, w) :: rho) u | None => ([u], None) end)
+      bind (go init rho v) (fun s0 =>
+        let '(ws, sx) := go src rho v in
+        seq (foreach_fold (fun w acc => go upd ((x, BV w) :: rho) acc)
+               (fun w u => match ext with Some e => go e ((x, BV w) :: rho) u | None => ([u], None) end)
                ws s0)
             ([], sx))
   | QLabel l body =>
-      match den body rho v with
+      match go body rho v with
       | (ws, Some (XBrk l')) => if N.eqb l l' then (ws, None) else (ws, Some (XBrk l'))
       | r => r
       end
   | QBreak l => ([], Some (XBrk l))
-  | QBind src x body => bind (den src rho v) (fun w => den body ((x, w) :: rho) v)
-  | QVar x => match lookup x rho with Some w => ([w], None) | None => ([], None) end
+  | QBind src x body => bind (go src rho v) (fun w => go body ((x, BV w) :: rho) v)
+  | QVar x => match lookup_v x rho with Some w => ([w], None) | None => ([], None) end
   | QCall0 f => of_sum (n_fn0 nt f v)
   | QBinop o a b =>
       (* the RIGHT operand is the outer loop (compileCallInternal evaluates the last argument first) *)
-      bind (den b rho v) (fun r => bind (den a rho v) (fun l => of_sum (n_fn2 nt o v l r)))
+      bind (go b rho v) (fun r => bind (go a rho v) (fun l => of_sum (n_fn2 nt o v l r)))
+  | QDef f ps body rest =>
+      match ps with
+      | [] => go rest ((f, BF body) :: rho) v
+      | _ => ([], None)
+      end
+  | QCallF f args =>
+      match args with
+      | [] => match lookup_f f rho with
+              | Some (body, rho_d) => call body rho_d v
+              | None => ([], None)
+              end
+      | _ => ([], None)
+      end
   end.
+
+Fixpoint call_of (fu : nat) : query -> venv -> jv -> result :=
+  match fu with
+  | O => fun _ _ _ => ([], Some XFuel)
+  | S m => den1 (call_of m)
+  end.
+Definition den (fu : nat) : query -> venv -> jv -> result := den1 (call_of fu).
 
 End Den.
